@@ -61,7 +61,11 @@ def gen_bundle_program(seed):
                 new_bundle(("barith", op, ("bref", src), opd), bundles[src])
             elif x < 0.5:
                 kk = None if r.random() < 0.6 else r.choice([1, 5, -1])
-                new_bundle(("bfilter", r.choice(CMPS), ("bref", src), scalar_operand(bundles[src]), kk), bundles[src])
+                opd = scalar_operand(bundles[src])
+                # known finding S34: a signal operand travels on the bundle's own wire, so under a comparison that
+                # holds between a value and itself (== >= <=) the operand passes its own filter and joins the result
+                cmp_ = r.choice(["<", ">", "!="]) if opd[0] == "var" else r.choice(CMPS)
+                new_bundle(("bfilter", cmp_, ("bref", src), opd, kk), bundles[src])
             elif x < 0.65:
                 # gating `(s CMP c) : bundle` is known finding S24 (the condition signal travels on the same
                 # colour as the bundle and is forwarded with it): replayed as a witness, not generated
